@@ -225,6 +225,26 @@ func VerifC07Grammar() {
 	c07Check(tmpl)
 }
 
+// VerifC07Two: two operator substitutions in one template, possibly of the same variable (each reference is
+// evaluated on its own: what the first one found says nothing about the second).
+func VerifC07Two() {
+	names := []string{"A", "_"}
+	n1 := names[vrtChoice("name1", 2)]
+	n2 := names[vrtChoice("name2", 2)]
+	ops := []string{":-", "-", ":+", "+", ":?", "?"}
+	op1 := ops[vrtChoice("op1", 6)]
+	op2 := ops[vrtChoice("op2", 6)]
+	d1 := vrtString("d1", vrtParam("DL", 1), "x$")
+	d2 := vrtString("d2", vrtParam("DL", 1), "y$")
+	sep := []string{"", " "}[vrtChoice("sep", 2)]
+	nested := vrtChoice("nested", 2) == 1
+	tmpl := "${" + n1 + op1 + d1 + "}" + sep + "${" + n2 + op2 + d2 + "}"
+	if nested {
+		tmpl = "${" + n1 + op1 + "${" + n2 + op2 + d2 + "}" + d1 + "}"
+	}
+	c07Check(tmpl)
+}
+
 func c07Check(tmpl string) {
 	stA := vrtChoice("stateA", 2)
 	valA := ""
